@@ -686,8 +686,10 @@ func (g *c18Gen) containedOp(cf protoreflect.FieldDescriptor) (C18Op, bool) {
 	}
 	tn := string(inner.ProtoReflect().Descriptor().Name())
 	prefix := fmt.Sprintf("%s.contained[%d]", root.Descriptor().Name(), k)
+	single := false
 	if l.Len() == 1 && g.r.p(0.4) {
 		prefix = fmt.Sprintf("%s.contained", root.Descriptor().Name())
+		single = true
 	}
 	for try := 0; try < 4; try++ {
 		sub := &c18Gen{r: g.r, tier: g.tier, cur: proto.Clone(inner)}
@@ -696,7 +698,7 @@ func (g *c18Gen) containedOp(cf protoreflect.FieldDescriptor) (C18Op, bool) {
 		if op.Contained != nil || i < 0 || strings.Contains(op.Path[:i], "$this") || strings.Contains(op.Path[:i], "%context") {
 			continue
 		}
-		op.Contained = &C18Contained{Idx: k, Type: tn, Inner: op.Path}
+		op.Contained = &C18Contained{Idx: k, Type: tn, Inner: op.Path, Single: single}
 		op.Path = op.Path[:i] + prefix + op.Path[i+len(tn):]
 		op.Note = strings.TrimPrefix(op.Note+"+contained", "+")
 		// keep the generator's copy in step with what the model will say
@@ -747,6 +749,21 @@ func genC18(seed uint64, run int, tier string) *Case {
 		n := 1 + r.n(maxOps)
 		for oi := 0; oi < n; oi++ {
 			var op C18Op
+			if follow == nil && len(ops) >= 2 && r.p(0.14) {
+				// the very same compiled expression again, later in the history (whatever it selects by
+				// now): state kept in a patch.Expression between its uses must not matter
+				op = ops[r.n(len(ops)-1)]
+				for try := 0; try < 3 && op.Contained == nil; try++ {
+					op = ops[r.n(len(ops)-1)] // prefer expressions that enter a contained resource (they carry more state)
+				}
+				op.API, op.FailN = "expr", 0
+				op.Note = strings.TrimPrefix(strings.ReplaceAll(op.Note, "+repeat", "")+"+repeat", "+")
+				if r.p(0.4) {
+					op.Op, op.Value = "delete", nil
+				}
+				ops = append(ops, op)
+				continue
+			}
 			op, follow = g.genOp(follow)
 			if op.API == "" {
 				op.API = "expr"
